@@ -52,6 +52,9 @@ type hist struct {
 	srvLog  *logBuf
 	classes map[string]int
 	notes   map[[2]string]int
+	aborted bool // stopped early after many violations
+	nbad    int  // every report
+	sigN    map[string]int
 }
 
 type logBuf struct {
@@ -86,12 +89,21 @@ func seeded(label string) *rand.Rand {
 
 // sigs that are independent of the configuration (handler-level) carry no storage suffix.
 var plainSig = map[string]bool{
-	"enumerate/maxwaitsec-positive-empty":        true,
-	"client/EnumerateBlobsOpts/maxwait-empty":    true,
+	"enumerate/maxwaitsec-positive-empty":     true,
+	"client/EnumerateBlobsOpts/maxwait-empty": true,
+	"client/StatBlobs/dup":                    true,
 }
 
 func (h *hist) bad(sig, format string, args ...any) {
-	h.nviol++
+	h.nbad++
+	if h.sigN == nil {
+		h.sigN = map[string]int{}
+	}
+	// a signature weighs at most 3 towards the abort threshold, so that a defect that
+	// shows on every request of one class (e.g. a listed known finding) does not end the history
+	if h.sigN[sig]++; h.sigN[sig] <= 3 {
+		h.nviol++
+	}
 	if !plainSig[sig] {
 		sig += "/" + h.cfg.Storage
 	}
@@ -324,12 +336,15 @@ func childMain() {
 		smp = smp[:10]
 	}
 	emit(event{T: "sample", Value: map[string]any{"case_id": caseID, "config": cfg.String(), "first_ops": smp, "ops": len(h.ops), "blobs": len(h.present)}})
-	emit(event{T: "done", N: h.nviol})
+	if h.aborted {
+		emit(event{T: "aborted", N: h.nbad})
+	}
+	emit(event{T: "done", N: h.nbad})
 	os.Exit(0)
 }
 
 func (h *hist) makeUniverse(hn int) {
-	u := sto.Universe(h.rng, sto.GenOpts{N: 24, Hashes: true})
+	u := sto.Universe(h.rng, sto.GenOpts{N: 34, Hashes: true})
 	// one (thorough histories: sometimes two) 1 MiB blob
 	big := make([]byte, 1<<20)
 	h.rng.Read(big)
@@ -349,6 +364,9 @@ func (h *hist) makeUniverse(hn int) {
 	}
 	for _, b := range h.universe {
 		h.data[b.Ref.String()] = b.Data
+	}
+	for _, b := range h.never {
+		h.data[b.Ref.String()] = b.Data // reserved: freshBlob must not re-create them
 	}
 	for _, b := range h.file {
 		h.data[b.Ref.String()] = b.Data
